@@ -283,17 +283,17 @@ def implements(np_function):
 @implements(np.linspace)
 def linspace(a, b, c, **kwargs):
     if isinstance(a,Quantity):
-        b = Quantity(b.value(a.units()), a.baseunits) if isinstance(b,Quantity) else Quantity(b, a.baseunits)
+        b = Quantity(b._convert(b.magnitude, b.baseunits, a.baseunits).value, a.baseunits) if isinstance(b,Quantity) else Quantity(b, a.baseunits)
     else:
-        a = Quantity(a.value(b.units()), b.baseunits) if isinstance(a,Quantity) else Quantity(a, b.baseunits)
+        a = Quantity(a._convert(a.magnitude, a.baseunits, b.baseunits).value, b.baseunits) if isinstance(a,Quantity) else Quantity(a, b.baseunits)
     return Quantity(np.linspace(a.magnitude.value, b.magnitude.value, c, **kwargs), a.baseunits)
 
 @implements(np.logspace)
 def logspace(a, b, c, **kwargs):
     if isinstance(a,Quantity):
-        b = Quantity(b.value(a.units()), a.baseunits) if isinstance(b,Quantity) else Quantity(b, a.baseunits)
+        b = Quantity(b._convert(b.magnitude, b.baseunits, a.baseunits).value, a.baseunits) if isinstance(b,Quantity) else Quantity(b, a.baseunits)
     else:
-        a = Quantity(a.value(b.units()), b.baseunits) if isinstance(a,Quantity) else Quantity(a, b.baseunits)
+        a = Quantity(a._convert(a.magnitude, a.baseunits, b.baseunits).value, b.baseunits) if isinstance(a,Quantity) else Quantity(a, b.baseunits)
     return Quantity(np.logspace(a.magnitude.value, b.magnitude.value, c, **kwargs), a.baseunits)
 
 @implements(np.absolute)
